@@ -7,7 +7,7 @@ for d in seeded/*/; do
   [ -f "$d/patch.diff" ] || continue
   checks=$(python3 -c "import json;print(' '.join(json.load(open('$d/meta.json'))['caught_by']))")
   if ! git -C /repo diff --quiet; then echo "repo dirty"; exit 2; fi
-  git -C /repo apply "$d/patch.diff" || { echo "$n: PATCH DOES NOT APPLY"; continue; }
+  git -C /repo apply "/verif/$d/patch.diff" || { echo "$n: PATCH DOES NOT APPLY"; continue; }
   for c in $checks; do
     ./check $c quick >/dev/null 2>&1; rc=$?
     echo "$n $c rc=$rc $([ $rc -eq 1 ] && echo CAUGHT || echo NOT-CAUGHT)"
